@@ -28,6 +28,7 @@ pub enum Op { Msg(usize, u64), View }
 
 pub fn run_case(id: usize, api_mode: bool, ops: Vec<Op>) -> Vec<String> {
     std::thread::spawn(move || {
+        use std::io::Write;
         let mut lines = vec![];
         provider::initialize_from_msgpack_bytes(vec![0xc0]);
         for op in ops {
@@ -57,10 +58,31 @@ pub fn run_case(id: usize, api_mode: bool, ops: Vec<Op>) -> Vec<String> {
                 }
                 Op::View => view(),
             });
-            lines.push(match r { Ok(s) => format!("{} {}", id, s), Err(_) => format!("{} PANIC", id) });
+            let l = match r { Ok(s) => format!("{} {}", id, s), Err(_) => format!("{} PANIC", id) };
+            println!("OB {}", l); std::io::stdout().flush().unwrap();
+            lines.push(l);
         }
         lines
     }).join().unwrap()
+}
+
+/// Child side of the crash isolation: read case blocks from stdin, stream observations.
+pub fn child_main() {
+    use std::io::{BufRead, Write};
+    let stdin = std::io::stdin(); let mut block = String::new();
+    for line in stdin.lock().lines() {
+        let line = line.unwrap(); block.push_str(&line); block.push('\n');
+        if line == "END" {
+            for (id, api_mode, ops) in parse_cases(&block) { let _ = run_case(id, api_mode, ops); }
+            block.clear(); println!("DONE"); std::io::stdout().flush().unwrap();
+        }
+    }
+}
+
+fn block_lines(id: usize, cap: usize, api_mode: bool, ops: &[Op]) -> Vec<String> {
+    let mut v = vec![format!("CASE {} {} {}", id, cap, if api_mode { "api" } else { "prov" })];
+    for op in ops { v.push(match op { Op::Msg(l, s) => format!("MSG {} {}", l, s), Op::View => "VIEW".to_string() }); }
+    v.push("END".into()); v
 }
 
 fn emit(out: &mut Out, id: usize, cap: usize, api_mode: bool, ops: &[Op]) {
@@ -87,11 +109,12 @@ pub fn parse_cases(text: &str) -> Vec<(usize, bool, Vec<Op>)> {
 
 pub fn run(a: &Args, out: &mut Out) {
     let cap = capacity();
+    let mut iso = crate::Isolated::new("c05");
     if let Some(f) = &a.replay {
         let mut evals = 0u64; let mut n = 0u64;
         for (id, api_mode, ops) in parse_cases(&std::fs::read_to_string(f).unwrap()) {
             emit(out, id, cap, api_mode, &ops); evals += ops.len() as u64; n += 1;
-            for l in run_case(id, api_mode, ops) { out.imp(&l); }
+            for l in iso.run_block(id, &block_lines(id, cap, api_mode, &ops), ops.len()) { out.imp(&l); }
         }
         out.stat("cases", n.into()); out.stat("evaluations", evals.into());
         return;
@@ -130,7 +153,7 @@ pub fn run(a: &Args, out: &mut Out) {
         emit(out, id, cap, api_mode, &ops);
         evals += ops.len() as u64;
         if total > cap { wrapped_cases += 1; nontrivial.insert(key); }
-        for l in run_case(id, api_mode, ops) { out.imp(&l); }
+        for l in iso.run_block(id, &block_lines(id, cap, api_mode, &ops), ops.len()) { out.imp(&l); }
     }
     out.stat("cases", ncases.into());
     out.stat("capacity", cap.into());
